@@ -163,14 +163,15 @@ def optionalRole (ds : Views) (mesh : VarView) (valid : List String) (role : Str
   | none => []
 
 /-- optional coordinate pair (`edge_coordinates` / `face_coordinates`): each of the two
-names counts on its own if it is in `data_vars`; an attribute with one word raises. -/
+names counts on its own if the dataset has a variable of that name (`dataset[name]`, data
+variable or coordinate); an attribute with one word raises. -/
 def optionalCoords (ds : Views) (mesh : VarView) (key : String) : Option (List String) :=
   match mesh.attr key with
   | none => some []
   | some s =>
     match splitCoord s with
     | none => none
-    | some (x, y) => some ([x, y].filter fun n => (ds.dataVar? n).isSome)
+    | some (x, y) => some ([x, y].filter fun n => (ds.var? n).isSome)
 
 /-- `UGrid.get_all_geometry_names` -/
 def ugridNames (ds : Views) (key : Option String) (valid : List String) : Option (List String) :=
@@ -179,7 +180,8 @@ def ugridNames (ds : Views) (key : Option String) (valid : List String) : Option
   | some mesh =>
     match mesh.attr "face_node_connectivity", (mesh.attr "node_coordinates").bind splitCoord with
     | some fnc, some (nx, ny) =>
-      if (ds.dataVar? fnc).isSome && (ds.dataVar? nx).isSome && (ds.dataVar? ny).isSome then
+      -- the connectivity is looked up in `data_vars`, the node coordinates in the whole dataset
+      if (ds.dataVar? fnc).isSome && (ds.var? nx).isSome && (ds.var? ny).isSome then
         match optionalCoords ds mesh "edge_coordinates", optionalCoords ds mesh "face_coordinates" with
         | some ec, some fc =>
           some ([mesh.name, fnc, nx, ny]
